@@ -682,6 +682,43 @@ def shrink_case(case):
         yield Case(render(TCase(c.game, c.lang, c.layers[1:], c.ops), fsgen.fresh_base()), case.stream)
 
 
+def release_leg(wd):
+    """run the typed-e2e cases of this run (wd/cases.txt) on the release build; compare with the model outputs (wd/model.txt)"""
+    import os
+    try:
+        lines = open(os.path.join(wd, "cases.txt")).read().split("\n")
+        model = open(os.path.join(wd, "model.txt")).read().split("\n")
+    except OSError:
+        return [], {"skipped": "no model outputs"}
+    pairs = [(l, m) for l, m in zip(lines, model) if l.startswith("typedfs ")]
+    if not pairs:
+        return [], {"cases": 0}
+    ok, out = common.build_harness(True)
+    if not ok:
+        return [("typed-e2e release build", "the release harness does not build: " + out[-300:])], {"cases": 0}
+    # fresh scratch names: the debug run has removed its directories, but a replay must not depend on that
+    relines = []
+    for l, _ in pairs:
+        t = l.split(" ")
+        t[1] = fsgen.fresh_base()
+        relines.append(" ".join(t))
+    outs = common.run_tool(common.harness_bin(True), relines, wd, "impl-release-typed")
+    viol = []
+    nd = nf = 0
+    for l, (_, m), o in zip(relines, pairs, outs):
+        c = Case(l, STREAM)
+        f = oracle(c, o)
+        if f:
+            nf += 1
+            if len(viol) < 3:
+                viol.append(("release build: " + l[:4000], f))
+        elif not agree(c, o, m, "release"):
+            nd += 1
+            if len(viol) < 3:
+                viol.append(("release build: " + l[:4000], "typed result differs from the model run in wrapping arithmetic"))
+    return viol, {"cases": len(pairs), "oracle_failures": nf, "differences_with_model": nd}
+
+
 # ----------------------------------------------------------------------------- the hook for gen/c12.py
 RULE = (" + stream typed-e2e (kind typedfs): histories of write / read and ALL typed helpers on 1-3 real temp-directory layers, 5 games x 8 "
         "languages, localized or not, names with and without the compressed suffix, images from independent Python reference writers "
@@ -716,9 +753,13 @@ def hook(cls):
 
     def extra_(self, ctx):
         viol, cov = x0(self, ctx)
-        cov = dict(cov)
+        viol, cov = list(viol), dict(cov)
         cov["typed_e2e_values_checked_by_oracle"] = dict(sorted(STATS.items()))
-        return viol, cov
+        # the theorems quantify over both arithmetic profiles: the same histories on the RELEASE build of the harness, compared
+        # with the model's wrapping-arithmetic run (the property's own profile list stays debug-only)
+        rv, rc = release_leg(ctx["wd"])
+        cov["typed_e2e_release_build"] = rc
+        return viol + rv, cov
 
     cls.generate, cls.oracle, cls.agree, cls.nontrivial, cls.shrink_candidates = generate, oracle_, agree_, nontrivial_, shrink_
     cls.extra_checks = extra_
